@@ -145,6 +145,11 @@ func Harness_C01_resolve() {
 	if chain >= 3 {
 		verifCover("nesting>=2")
 	}
+	// "nested less deeply than the depth limit": also under the tightest limit that admits the book
+	if verifBound("tight", 0) == 1 && verifChoose("limit", 2) == 1 {
+		N = chain + 1
+		verifLabel("limit", "tightest")
+	}
 	out, err := hResolveAPI(api, N, db)
 	verifAssert("no-error", err == nil)
 	if err != nil {
